@@ -128,7 +128,8 @@ def main():
         rec = {"file": f, "line": node.lineno, "kind": kind, "old": src.split("\n")[node.lineno - 1].strip()[:160], "new": new.split("\n")[node.lineno - 1].strip()[:160]}
         try:
             tests = [t for t in (f[:-3] + "_test.py", os.path.dirname(f) + "/__init__.py") if t.endswith("_test.py") and os.path.exists(os.path.join(wt, t))]
-            tests += [t for t in ("pyteal/compiler/compiler_test.py",) if os.path.exists(os.path.join(wt, t)) and t not in tests]
+            if not tests:
+                tests = ["pyteal/compiler/compiler_test.py"]
             t0 = time.time()
             tp = subprocess.run(["/venv/bin/python", "-m", "pytest", "-q", "-x", "-p", "no:cacheprovider", "--timeout=120", "-n", "4"] + tests, cwd=wt, capture_output=True, text=True, timeout=900)
             rec["tests_pass"] = tp.returncode == 0
